@@ -117,6 +117,7 @@ M("C03", "c03_m_tx_wind_unwind", ["Transaction::on_chain_reorganization", "Slip:
 M("C03", "c03_unwind_full_before_revert", ["Blockchain::validate", "Blockchain::wind_chain", "Blockchain::unwind_chain"], "segments (2,1) and (3,2), every validity pattern; event order on every path", covers=2)
 M("C03", "c03_m_block_reorg_step", ["Block::on_chain_reorganization"], "blocks of 0..=2 transactions, flag and previous flag symbolic: flag stored, every transaction applied/reverted with it", covers=1)
 M("C03", "c03_reorg_sequence", ["Blockchain::validate", "Blockchain::wind_chain", "Blockchain::unwind_chain"], "same universe as c04_machine", covers=4)
+M("C03", "c03_orphan_disturbs_nothing", ["Blockchain::add_block (async body, up to the fork-choice comparison)"], "same as c05_orphan_disturbs_nothing: every path of the prefix; the disconnect loop cut at its first write; classes block id >= tip id (must hold) and < tip id (known finding)", covers=1)
 # ============================================================================== C08
 PROPERTY_ASSUMPTIONS["C08"] = [
     "engine M: MIR of /repo's current source (hooks guard off), integers as bit-vectors of their Rust width; hop keys and fee fully symbolic; number of hops concrete per query",
@@ -178,6 +179,7 @@ M("C09", "c09_lite_header_copy", ["Block::generate_lite_block", "Block::generate
 M("C09", "c09_m_tx_size_prediction", ["Transaction::get_serialized_size", "Transaction::serialize_for_net_with_hop", "Slip::serialize_for_net", "Hop::serialize_for_net"], "0..=2 inputs x 0..=1 outputs x 0..=2 hops (thorough 2/2/3), payload length symbolic below 2^32, all field values symbolic", covers=10)
 M("C09", "c09_m_tx_counts_agree", ["Transaction::deserialize_from_net (header section)", "Transaction::serialize_for_net_with_hop (accepted counts: <=255 inputs/outputs)"],
   "count fields symbolic with inputs, outputs <= 255, message <= 2^20, hops <= 64, buffer length exactly the encoded size; element loops cut at the first iteration")
+M("C09", "c09_m_tx_encoder_accepts_counts", ["Transaction::serialize_for_net_with_hop (the refusal exits)"], "input / output counts symbolic over the full 64-bit range, hop count <= 2^32, optional extra hop present or not; explored up to the first element encoding", covers=1)
 
 # ============================================================================== C06 / C08 gates / C13 (Block::validate exploration)
 BVX = "saito_core::core::consensus::block::Block::validate (async body, every poll Ready; all callees uninterpreted: consensus values, parent block, configuration and crypto verdicts are free values)"
@@ -198,6 +200,7 @@ M("C08", "c08_winning_router_eligible", ["Transaction::get_winning_routing_node"
 M("C08", "c08_requirement_zero_after_two_heartbeats", ["BurnFee::return_routing_work_needed_to_produce_block_in_nolan"], "every parent burn fee, timestamps and heartbeat (u64); the integer gates (misordered timestamps, elapsed >= 2 x heartbeat => 0); the float curve below two heartbeats is an arbitrary value; native replay", covers=1)
 M("C08", "c08_routing_path_valid", ["Transaction::validate_routing_path"], "paths of 1..=2 hops (thorough 3), keys / signatures symbolic, one free verify verdict per question; message = tx signature || hop.to checked bytewise", covers=1)
 M("C08", "c08_block_counts_work_once", ["Block::generate"], "blocks of 1..=2 transactions (thorough 3), block.total_work before the call symbolic; Transaction::generate replaced by its contract (writes a fresh total_work_for_me <= 7e17); merkle root / hashing not entered", covers=2)
+M("C08", "c08_tx_validate_path_gate", ["Transaction::validate"], "types Normal / GoldenTicket / Vip / Bound, 1 input x 1..=2 outputs; verify_signature and validate_routing_path are free verdicts (their own obligations: c01_tx_signature_gate, c08_routing_path_valid)", covers=1)
 PROPERTY_ASSUMPTIONS["C13"] = [
     "engine M gates only: the validator requires the block's rebroadcast commitment to equal the recomputed one, and the in-block double-spend scan treats ATR transactions like any other spender. Which outputs are selected for rebroadcast, their amounts, 'exactly once' and expiry over histories are outside the claim",
 ]
@@ -241,6 +244,7 @@ M("C16", "c16_mark_as_failed_step", ["BlockchainSyncState::mark_as_failed"], "qu
 M("C16", "c16_picture_no_duplicates", ["BlockchainSyncState::build_peer_block_picture"], "one peer, fetch queue of 2..=3 entries (thorough 4) in any order without duplicates, one announced (id, hash) possibly equal to any queued entry; the final map clean-ups are cut", covers=1)
 M("C16", "c16_mark_as_fetched_step", ["BlockchainSyncState::mark_as_fetched"], "two peers, each queue holding the fetched hash (any status, either position) and one other entry; the clean-up call is cut", covers=1)
 M("C16", "c16_select_orders_unsorted_queue", ["BlockchainSyncState::get_blocks_to_fetch_per_peer"], "queue of 2..=3 entries (both tiers) in arbitrary order with pairwise distinct ids, statuses / retry counts symbolic, batch size 1..=3; sort_by executed as a bubble network over the real comparison closure (equal ids, i.e. the hash tie-break, outside this obligation)", covers=2)
+M("C16", "c16_remove_entry_every_peer", ["BlockchainSyncState::remove_entry"], "two peers, each queue holding the removed hash (any status, either position) and one other entry; explored up to the final clean-up of empty queues (map retain); VecDeque::retain executed over the real closure", covers=1)
 M("C16", "c16_select_step", ["saito_core::core::consensus::blockchain_sync_state::BlockchainSyncState::get_blocks_to_fetch_per_peer"],
   "queues of 1..=3 entries (thorough 4): every status pattern (4^n), ids, retry counters (full u32) and batch size symbolic; ~14 clauses per path", covers=3)
 
@@ -294,7 +298,8 @@ M("C18", "c18_lite_tx_projection", ["saito_core::core::consensus::block::Block::
 
 M("C18", "c18_lite_block_keeps_listed", ["Block::generate_lite_block (whole function: projection closure, placeholder merging loop, header copy)"], "blocks of 2..=3 transactions (thorough 4), one input and one output each, owner keys / types / signatures symbolic, one listed key", covers=2)
 M("C18", "c18_placeholder_wire_roundtrip", ["Transaction::serialize_for_net_with_hop", "Transaction::deserialize_from_net"], "same as c09_m_tx_roundtrip (txs_replacements among the compared fields)", covers=4)
-M("C18", "c18_generate_ordinals_count_placeholders", ["Block::generate"], "blocks of 1..=3 transactions (thorough 4), transaction types and txs_replacements (<= 2^20) symbolic; Transaction::generate replaced by a recorder of its ordinal argument; merkle root / hashing not entered", covers=3)
+M("C18", "c18_generate_ordinals_count_placeholders", ["Block::generate"], "blocks of 1..=3 transactions (both tiers), transaction types and txs_replacements (<= 2^20) symbolic; Transaction::generate replaced by a recorder of its ordinal argument; merkle root / hashing not entered", covers=3)
+M("C18", "c18_tx_encoder_accepts_counts", ["Transaction::serialize_for_net_with_hop (the refusal exits)"], "same as c09_m_tx_encoder_accepts_counts", covers=1)
 # ============================================================================== C14
 PROPERTY_ASSUMPTIONS["C14"] = [
     "inductive steps from a pool satisfying Inv (utxo_map holds exactly the inputs of the pooled transactions; pooled transaction = 1 with 1..=2 inputs), routing work and fees within the token supply; async bodies with every poll Ready",
